@@ -158,8 +158,9 @@ def splitter(r, F):
     seen_closed = 0
     for name in ("split_blob", "seal_blob"):
         fn = F.method(SP, name)
-        psn = fn.local_name(4) or "part_size"
-        ps_key = "%s*@entry" % psn
+        # the `&mut usize` parameter carrying the bytes of the current part (third parameter), whatever it is called
+        ps_param = next((l for l in range(1, fn.argc + 1) if fn.local_ty(l) == "&mut usize"), 3)
+        ps_key = "%s*@entry" % (fn.local_name(ps_param) or "_%d" % ps_param)
         for st in _stores(fn, "current_blob_block_offset"):
             form = affine.store_form(fn, st)
             form = {(PS if k == ps_key else k): v for k, v in (form or {}).items()}
@@ -202,7 +203,7 @@ def splitter(r, F):
     flds = dict(s.rv.agg_fields())
     form = affine.affine(sp, flds["offset"], depth=1, pos=(bi, i))
     ks = sorted(k for k in form if k != "1")
-    r.require(len(ks) == 2 and all(form[k] == 1 for k in ks) and "1" not in form and any("current_part_blob_offset" in k for k in ks) and any("part_size" in k for k in ks), sp,
+    r.require(len(ks) == 2 and all(form[k] == 1 for k in ks) and "1" not in form and any("current_part_blob_offset" in k for k in ks) and any("." not in k for k in ks), sp,
               "index.offset = part offset + bytes of this part so far", "affine form: %s" % affine.pretty(form), "an entry's in-blob offset is recorded as `%s`" % affine.pretty(form), ln=s.ln)
     r.require(backslice(sp, flds["len"], "prov").has_field("len", "BufferEntryInfo") and backslice(sp, flds["hash"], "prov").has_field("hash", "BufferEntryInfo") and
               backslice(sp, flds["sequence"], "prov").has_field("sequence", "BufferEntryInfo"), sp, "index hash/sequence/len from the buffered entry", "copied from the entry being placed",
